@@ -30,9 +30,23 @@ type CtlCase struct {
 	// StaleWriteDeadline: the application's own write deadline has long
 	// passed; automatic replies are not subject to it.
 	StaleWriteDeadline bool `json:"stale_write_deadline,omitempty"`
+	// FailNetErr: the failing handler returns a temporary net.Error instead
+	// of a plain error.
+	FailNetErr bool `json:"fail_net_err,omitempty"`
 }
 
 var errHandler = errors.New("harness: handler says no")
+
+// handlerNetErr is a handler error that is also a temporary, timed-out
+// net.Error - what a handler returns when it passes on the result of its own
+// WriteControl call.
+type handlerNetErr struct{}
+
+func (handlerNetErr) Error() string   { return "harness: handler's reply timed out" }
+func (handlerNetErr) Timeout() bool   { return true }
+func (handlerNetErr) Temporary() bool { return true }
+
+var errHandlerNet error = handlerNetErr{}
 
 func genCtlCase(t *rapid.T) CtlCase {
 	var c CtlCase
@@ -54,6 +68,7 @@ func genCtlCase(t *rapid.T) CtlCase {
 	c.LocalClose = rapid.IntRange(0, 4).Draw(t, "local_close") == 0
 	c.TightLimit = rapid.IntRange(0, 3).Draw(t, "tight_limit") == 0
 	c.StaleWriteDeadline = rapid.IntRange(0, 3).Draw(t, "stale_wdl") == 0
+	c.FailNetErr = rapid.Bool().Draw(t, "fail_net_err")
 	return c
 }
 
@@ -67,6 +82,10 @@ func checkC08(c CtlCase, o *Obs) error {
 	tr.SetInput(model.Wire, c.Chunks)
 	tr.EOFWithData = c.EOFWith
 	prog := &ReadProgress{}
+	errHandler := errHandler
+	if c.FailNetErr {
+		errHandler = errHandlerNet
+	}
 	h := &handlerLog{failAt: -1, prog: prog, custom: c.Handlers == "custom", failErr: errHandler}
 	nctl := len(model.Ctl)
 	if model.Close != nil {
